@@ -6,6 +6,7 @@ package main
 // submitted against each configuration.
 
 import (
+	"bytes"
 	"fmt"
 	"math/big"
 
@@ -16,8 +17,8 @@ func init() {
 	register(&Check{
 		ID:    "C03",
 		Level: "model_checking",
-		Rule: "full Cartesian product of acceptance-condition values: configuration (receive pause x mint pause x messenger registered x pair linked x mint-side state {ok, fiattokenfactory paused, allowance too small, recipient blacklisted}) " +
-			"x message (attestation x header length x destination domain x version x nonce fresh/used x destination caller x recipient module/other x body shapes x sender match); " +
+		Rule: "full Cartesian product of acceptance-condition values: configuration (receive pause x mint pause x messenger registered x pair linked x mint-side state {ok, fiattokenfactory paused, allowance too small, recipient blacklisted, pair linked to a denom the factory does not mint}) " +
+			"x message (attestation x header length x destination domain x version x nonce fresh/used x destination caller {zero, submitter, other, non-zero high 12 bytes with zero / submitter low 20 bytes} x recipient module/other x body shapes x sender match); " +
 			"states = distinct (configuration, post-state) pairs reached, transitions = receives executed; distinct_nontrivial = distinct vectors of acceptance-condition truth values observed",
 		Assumptions: []string{"a destination caller whose low 20 bytes name the submitter but whose high 12 bytes are non-zero is EITHER", "mint success is answered by dry-running the expected MsgMint on the real fiattokenfactory"},
 		Jobs:        c03Jobs,
@@ -32,20 +33,20 @@ func init() {
 
 type c03Config struct {
 	RecvPaused, MintPaused, Messenger, Linked bool
-	MintEnv                                   int // 0 ok, 1 ftf paused, 2 allowance too small, 3 recipient blacklisted
+	MintEnv                                   int // 0 ok, 1 ftf paused, 2 allowance too small, 3 recipient blacklisted, 4 pair linked to a denom the token factory does not mint
 	Src                                       uint32
 	AttCfg                                    int // 0: K1,K2 threshold 2; 1: K1,K2,K3 threshold 1
 }
 
 func (c c03Config) String() string {
 	return fmt.Sprintf("recvPaused=%v mintPaused=%v messenger=%v linked=%v mintEnv=%s src=%d att=%d", c.RecvPaused, c.MintPaused, c.Messenger, c.Linked,
-		[]string{"ok", "ftf-paused", "allowance-small", "recipient-blacklisted"}[c.MintEnv], c.Src, c.AttCfg)
+		[]string{"ok", "ftf-paused", "allowance-small", "recipient-blacklisted", "pair-linked-to-other-denom"}[c.MintEnv], c.Src, c.AttCfg)
 }
 
 func c03Jobs(tier string) []Job {
 	var jobs []Job
 	bools := []bool{false, true}
-	envs := []int{0, 1, 2, 3}
+	envs := []int{0, 1, 2, 3, 4}
 	type sa struct {
 		src uint32
 		att int
@@ -96,6 +97,10 @@ func c03Run(r *Run, c c03Config) {
 		lg.Allowance = "10"
 	case 3:
 		lg.Blacklisted = [][]byte{mintTo.Addr}
+	case 4:
+		for i := range g.TokenPairList {
+			g.TokenPairList[i].LocalToken = "ueurc"
+		}
 	}
 	scn := Scenario{Name: "c03", Ledger: lg, Genesis: g}
 	w := scn.Build(KindDB)
@@ -142,7 +147,9 @@ func c03Run(r *Run, c c03Config) {
 	callers := []struct {
 		name string
 		b    []byte
-	}{{"zero", Zero32}, {"submitter", pad32(sub.Addr)}, {"other", pad32(UserA.Addr)}}
+	}{{"zero", Zero32}, {"submitter", pad32(sub.Addr)}, {"other", pad32(UserA.Addr)},
+		{"high12-nonzero-low20-zero", append(bytes.Repeat([]byte{0x11}, 12), make([]byte, 20)...)},
+		{"high12-nonzero-low20-submitter", append(bytes.Repeat([]byte{0x11}, 12), sub.Addr...)}}
 	if quick {
 		atts = atts[:2]
 		dsts = dsts[:2]
